@@ -105,8 +105,46 @@ fn int_literal_splits_into_prefix_and_digits() {
     assert!(t.radix() as u8 == base);
 }
 """)
+_BITSTR = dict(file='crates/oq3_semantics/src/asg.rs', fn='BitStringLiteral::{to_expr, to_texpr}', harness='bit_string_literal_has_the_width_of_its_bits', unwind=6,
+    pieces=[('fn', 'impl BitStringLiteral', 'to_expr'), ('fn', 'impl BitStringLiteral', 'to_texpr')],
+    layout="""pub enum IsConst { True, False }
+pub enum ArrayDims { D1(usize), D2(usize, usize), D3(usize, usize, usize) }
+pub enum Type { BitArray(ArrayDims, IsConst), Void }
+pub enum Literal { BitString(BitStringLiteral), Array }
+pub enum Expr { Literal(Literal), NullExpr }
+pub struct TExpr { expression: Expr, ty: Type }
+impl TExpr { pub fn new(expression: Expr, ty: Type) -> TExpr { TExpr { expression, ty } } }
+pub struct BitStringLiteral { value: String }
+impl BitStringLiteral {
+    pub %s
+    pub %s
+}
+""",
+    bound='every bit-string text of at most 4 characters over {0, 1, _}',
+    claim='asg.rs::BitStringLiteral::to_texpr types the literal as a const one-dimensional bit register whose length is the number of 0/1 characters (separators not counted) and keeps it as a bit-string literal (the assumed contract of the trusted stub in unit SEMA); stand-in types: the variants of Type / ArrayDims / IsConst / Literal / Expr it uses, TExpr::new storing its arguments',
+    body="""#[cfg(kani)]
+#[kani::proof]
+#[kani::unwind(6)]
+fn bit_string_literal_has_the_width_of_its_bits() {
+    let n: usize = kani::any();
+    kani::assume(n <= 4);
+    let d: [u8; 4] = kani::any();
+    let mut bits = 0usize;
+    let mut j = 0;
+    while j < 4 {
+        kani::assume(d[j] == b'0' || d[j] == b'1' || d[j] == b'_');
+        if j < n && d[j] != b'_' { bits += 1; }
+        j += 1;
+    }
+    let text = unsafe { std::str::from_utf8_unchecked(&d[..n]) };
+    let lit = BitStringLiteral { value: String::from(text) };
+    let r = lit.to_texpr();
+    match r.ty { Type::BitArray(ArrayDims::D1(w), IsConst::True) => assert!(w == bits), _ => assert!(false) }
+    match r.expression { Expr::Literal(Literal::BitString(_)) => (), _ => assert!(false) }
+}
+""")
 EXTRACTED = {
-    'C09': [_INT_SPLIT], 'C08': [_INT_SPLIT],
+    'C09': [_INT_SPLIT], 'C08': [_INT_SPLIT, _BITSTR],
     'C03': [_PRAGMA_TEXT],
     'C06': [_PRAGMA_TEXT, _PRAGMA_TEXT2, _INT_SPLIT],
     'C14': [_CURSOR], 'C15': [_CURSOR], 'C11': [_CURSOR],
